@@ -1,0 +1,13 @@
+//go:build verif
+
+package limiter
+
+// Contracts for the deductive checker in /verif (comment-only file, no declarations).
+
+//@ func (opts *ClientLimiterOpts) setDefault()
+//@   props C15
+//@   requires opts != nil
+//@   modifies opts.Limit, opts.Burst, opts.V4Mask, opts.V6Mask
+//@   ensures [C15:v4mask] opts.V4Mask == ((1 <= old(opts.V4Mask) && old(opts.V4Mask) <= 32) ? old(opts.V4Mask) : 24)
+//@   ensures [C15:v6mask] opts.V6Mask == ((1 <= old(opts.V6Mask) && old(opts.V6Mask) <= 128) ? old(opts.V6Mask) : 48)
+//@   ensures [C15:burst] old(opts.Burst) > 0 ==> opts.Burst == old(opts.Burst)
